@@ -21,6 +21,7 @@ package readline
 import (
 	"errors"
 	"fmt"
+	"io"
 	"os"
 
 	"github.com/reeflective/readline/inputrc"
@@ -86,7 +87,13 @@ func (rl *Shell) Readline() (string, error) {
 		// Block and wait for available user input keys.
 		// These might be read on stdin, or already available because
 		// the macro engine has fed some keys in bulk when running one.
-		core.WaitAvailableKeys(rl.Keys, rl.Config)
+		if err := core.WaitAvailableKeys(rl.Keys, rl.Config); err != nil {
+			// The terminal input ended or failed: no command can be
+			// completed anymore, return what we have to the caller.
+			rl.Display.AcceptLine()
+
+			return string(*rl.line), io.EOF
+		}
 
 		// 1 - Local keymap (Completion/Isearch/Vim operator pending).
 		bind, command, prefixed := keymap.MatchLocal(rl.Keymap)
